@@ -145,7 +145,10 @@ var plans = map[string]*Plan{
 			js = append(js, jobs("cluster", tierN(tier, 2, 6), tierN(tier, 1, 3), "bin={BIN},cycles=2", time.Duration(tierN(tier, 20, 150))*time.Minute)...)
 			// controller engine (E2): membership walks with rebuild verification (incl. a failing last step and retries);
 			// at every settled point all replicas listed RW were told RW and report the same count
-			return append(js, jobs("ctlsim", 3, tierN(tier, 40, 800), "", time.Duration(tierN(tier, 10, 60))*time.Minute)...)
+			js = append(js, jobs("ctlsim", 3, tierN(tier, 40, 800), "", time.Duration(tierN(tier, 10, 60))*time.Minute)...)
+			// the same walks over the real backend (net mode): the REST requests of the promotion steps can lose their
+			// connection before they are answered
+			return append(js, jobs("ctlsim", 3, tierN(tier, 20, 300), "net=1", time.Duration(tierN(tier, 15, 90))*time.Minute)...)
 		},
 		CrashSig: rengCrash("C10"),
 		RaceJobs: func() []Job { return jobs("reng", 2, 12, "", 60*time.Minute) },
